@@ -202,6 +202,60 @@ def wsgi_pings(r, tier):
     r.sample({"recipe": "WSGI sse with ping timeouts on controlled threads, preemption bound 1"})
 
 
+def history_acts():
+    """What one ASGI process answers one after another: HTTP requests and refused WebSocket handshakes (with and without the
+    denial-response extension), each with one of a few responses."""
+    recipes = ["plain", "empty", "redirect", "stream", "sse", "json"]
+    return [(proto, rec) for proto in ("http", "ws-ext", "ws-plain") for rec in recipes]
+
+
+def history_response(m, rec):
+    if rec in ("stream", "sse"):
+        return build_stream("asgi", rec, 2, None)
+    return {"plain": lambda: m.PlainTextResponse("hello", 403, {"x-a": "1"}), "empty": lambda: m.Response(404), "redirect": lambda: m.RedirectResponse("/login"),
+            "json": lambda: m.JSONResponse({"a": 1}, 401)}[rec]()
+
+
+def run_act(m, act):
+    """-> (events normalised to http.* types, raw type list, exception, complete?)"""
+    from baize.asgi.websocket import WebsocketDenialResponse
+    proto, rec = act
+    resp = history_response(m, rec)
+    if proto == "http":
+        res = call("asgi", resp)
+        return res.events, [e.get("type") for e in res.events], res.exc, "http"
+    scope = {"type": "websocket", "asgi": {"version": "3.0", "spec_version": "2.3"}, "http_version": "1.1", "scheme": "ws", "path": "/", "raw_path": b"/", "root_path": "", "query_string": b"",
+             "headers": [], "server": ("example.com", 80), "client": ("1.2.3.4", 5), "subprotocols": []}
+    if proto == "ws-ext":
+        scope["extensions"] = {"websocket.http.response": {}}
+    res = SV.run_asgi(WebsocketDenialResponse(resp), scope, [{"type": "websocket.connect"}], monitor=False, disconnect_type="websocket.disconnect")
+    return res.events, [e.get("type") for e in res.events], res.exc, proto
+
+
+def judge_act(r, act, out, history):
+    events, types, exc, proto = out
+    r.count("evaluations")
+    r.count("distinct_nontrivial")
+    w = {"iface": "asgi", "recipe": f"history {history}", "fault": None, "history": [list(a) for a in history]}
+    what = f"ASGI process history {history}: last call ({act[0]} with the {act[1]} response)"
+    if exc is not None:
+        r.violation(f"history:exception:{type(exc).__name__}", w, f"{what} raised {exc!r:.150}")
+        return
+    if proto == "ws-plain":
+        if types != ["websocket.close"]:
+            r.violation("history:denial-without-extension", w, f"{what}: a handshake is refused by websocket.close alone when the server lacks the denial extension; sent {types}")
+        return
+    if proto == "ws-ext":
+        bad = [t for t in types if not str(t).startswith("websocket.http.response.")]
+        if bad:
+            r.violation("history:denial-event-type", w, f"{what}: event types {types}; only websocket.http.response.start/body are legal here")
+            return
+        events = [dict(e, type=e["type"][len("websocket."):]) for e in events]
+    probs = SV.asgi_http_problems(events, complete=True)
+    if probs:
+        r.violation(f"history:protocol:{probs[0].split(' ')[0]}", w, f"{what}: {probs[0]}; event types {types}")
+
+
 def shards(tier, seed):
     out = [("small", iface, k, 8) for iface in ("wsgi", "asgi") for k in range(8)]
     out += [("streams", iface) for iface in ("wsgi", "asgi")]
@@ -209,6 +263,7 @@ def shards(tier, seed):
     out += [("disconnect", k, 6) for k in range(6)]
     out.append(("hostile_headers",))
     out.append(("wsgi_pings",))
+    out += [("histories", k) for k in range(len(history_acts()))]
     return out
 
 
@@ -266,11 +321,15 @@ def run_shard(desc, tier):
             p = os.path.join(d, "data.bin")
             with open(p, "wb") as f:
                 f.write(bytes(range(10)))
+            p0 = os.path.join(d, "empty.bin")
+            open(p0, "wb").close()
             ranges = [None, "bytes=0-3", "bytes=0-5", "bytes=2-9", "bytes=0-0,5-6", "bytes=0-3,6-9", "bytes=5-4", "bytes=20-", "nonsense", "bytes=-0", "bytes=0-2,20-"]
-            for dn, rng, method, chunk, ifr in itertools.product(NAMES, ranges, ("GET", "HEAD"), (None, 1, 2, 3, 4), (None, '"stale"', "")):
+            for (size, p), dn, rng, method, chunk, ifr in itertools.product(((10, p), (0, p0)), NAMES, ranges, ("GET", "HEAD"), (None, 1, 2, 3, 4), (None, '"stale"', "")):
                 if ifr is not None and (chunk not in (None, 3) or dn not in (None, "é.txt")):
                     continue
-                name = f"file download_name={dn!r} range={rng!r} if_range={ifr!r} {method} chunk={chunk}"
+                if size == 0 and (chunk not in (None, 1) or dn not in (None, "é.txt")):
+                    continue
+                name = f"file{'' if size else ' (0 bytes)'} download_name={dn!r} range={rng!r} if_range={ifr!r} {method} chunk={chunk}"
                 headers = ([("Range", rng)] if rng else []) + ([("If-Range", ifr)] if ifr is not None else [])
 
                 def make():
@@ -294,6 +353,17 @@ def run_shard(desc, tier):
             shutil.rmtree(d, ignore_errors=True)
     elif desc[0] == "hostile_headers":
         hostile_headers(r)
+    elif desc[0] == "histories":
+        # what was answered before must not change what is answered now (message constants, class-level state)
+        m = mod_for("asgi")
+        acts = history_acts()
+        first = acts[desc[1]]
+        for second in acts:
+            for third in ([None] + acts if tier == "thorough" else [None, ("http", "plain"), ("ws-ext", "empty")]):
+                hist = [a for a in (first, second, third) if a]
+                for i, act in enumerate(hist):
+                    judge_act(r, act, run_act(m, act), hist[:i + 1])
+        r.sample({"iface": "asgi", "recipe": "history", "example": [list(a) for a in (first, acts[0])]})
     elif desc[0] == "wsgi_pings":
         wsgi_pings(r, tier)
     else:
@@ -337,6 +407,12 @@ def replay(w):
     iface = w["iface"]
     name = w["recipe"]
     fams = []
+    if name.startswith("history"):
+        m = mod_for("asgi")
+        hist = [tuple(a) for a in w["history"]]
+        for i, act in enumerate(hist):
+            judge_act(r, act, run_act(m, act), hist[:i + 1])
+        return bool(r.viol), {"violations": sorted(r.viol), "texts": [v[2][:300] for v in r.viol.values()]}
     if w.get("fault") == "disconnect":
         fams = [("disconnect", k, 6) for k in range(6)]
     elif name.startswith("hostile header"):
